@@ -276,8 +276,25 @@ def _gen_case(rp, rf, rk, tier, flavour):
             spec["via"] = "file"              # Cleaner.clean_file on a file in the scratch area
         if rk.random() < 0.12:
             spec["allowlist"] = dict((w, 10000) for w in rk.sample(["ERROR", "link", "inet", "gizmo", "~m"], rk.randint(1, 2)))
-        if flavour == "C10" and rk.random() < 0.1:
-            spec["width"] = True          # column-preserving mode of the netstat spec: only determinism is claimed for it
+        if rk.random() < (0.1 if flavour == "C10" else 0.07):
+            # column-preserving mode of the netstat spec: the replacement re-aligns (and may eat) what follows an address,
+            # so C10 claims determinism only, C08 that no original survives, C09 that no REPORTED original survives
+            spec["width"] = True
+            for segs in lines:
+                ipos = [j for j, sg in enumerate(segs) if sg[0] == "ip"]
+                if ipos and rp.random() < 0.35:
+                    # a textual copy of the address the recogniser does not see (glued to a word character), left of it
+                    j = ipos[0]
+                    segs[j:j] = [["f", rp.choice(["vip_", "x", "eth0_"]) + segs[j][1]], ["d", " " * 12]]
+                # netstat columns: whatever follows an address (and its port) is a run of blanks wide enough for the
+                # re-alignment, which removes up to six characters there WITHOUT looking at them
+                for j, sg in enumerate(segs):
+                    if sg[0] == "ip":
+                        k = j + 1
+                        if k < len(segs) and segs[k][0] == "f" and segs[k][1] in ADORN_POST:
+                            k += 1
+                        if k < len(segs) and segs[k][0] == "d":
+                            segs[k] = ["d", " " * 12]
         specs.append(spec)
     case = {"w": "w3", "flavour": flavour, "cfg": cfg, "fqdn": fqdn, "keywords": kws, "patterns": patterns, "specs": specs,
             "kw_pad": rk.random() < 0.15, "facts_mid": (rk.randrange(len(specs)) if flavour == "C09" and rk.random() < 0.2 else None),
@@ -549,6 +566,9 @@ def expected_outputs(case, final):
     for spec in case["specs"]:
         noobf = spec["no_obfuscate"]
         exp = []
+        if spec.get("width"):
+            exps.append(None)             # column-preserving mode pads and eats text: no exact reconstruction
+            continue
         for segs in spec["lines"]:
             raw = text_of(segs)
             if not spec["no_redact"] and raw and any((k == "plain" and p in raw) or (k == "regex" and re.search(p, raw)) for k, p in pats):
@@ -597,6 +617,20 @@ def oracle_c09(case, r, stats, facts_dir):
     exps = expected_outputs(case, final)
     for si, (exp, out) in enumerate(zip(exps, r.outputs)):
         if out is None:
+            continue
+        if exp is None:
+            # width mode: whatever the report pairs with a substitute must be gone from that spec's output
+            spec = case["specs"][si]
+            if case["cfg"]["obfuscate"] and "ip" not in spec["no_obfuscate"]:
+                issued = set(o for _, o in final["ip"])
+                for orig, _sub in final["ip"]:
+                    if orig in issued:
+                        continue
+                    for o in out:
+                        if occurs_token(orig, o, "0123456789."):
+                            viols.append(V("C09.consistent", "reported-original-left-in-output:ip:width-mode%s" % sfx,
+                                           "spec %d (width mode): %r is reported as replaced but still stands in %r" % (si, orig, o)))
+                            break
             continue
         if exp != out:
             bad = [(e, o) for e, o in zip(exp, out) if e != o][:1]
@@ -738,6 +772,7 @@ ASSUME = [
     "IPv4 originals are canonical dotted quads delimited by non-word characters other than '.'; hosts are delimited by characters outside [A-Za-z0-9._-]",
     "password secrets use the character class the masking expression claims; further password keys on a line are blank separated",
     "concurrent callers share a Cleaner only with obfuscation off (collect() refuses the parallel strategy otherwise)",
+    "width mode (the netstat spec): an address is followed by a run of >= 12 blanks or ends the line, as netstat's columns are; the re-alignment removes up to six characters after an address without looking at them",
     "<= 6 specs x <= 8 lines x <= 7 tokens per line, token pools of <= 5 per kind (recurrence is forced)",
     "IPv6 originals are not planted (the property does not speak about them); the IPv6 obfuscator still takes part in the pipeline order",
 ]
